@@ -238,10 +238,15 @@ def r19_2(rep: Report) -> None:
                         and _mentions_float(arg, tainted):
                     bad = c
         key = f'microsecond={norm(val)}'
+        digits_bad = None if bad is not None else _fraction_digits_moved(fn, val, tainted)
         if bad is not None:
             rep.fail(rid, construct, key,
                      f'`{norm(bad)}` truncates a scaled binary float: decimal fractions such as '
                      f'.000070 come back one microsecond short', n)
+        elif digits_bad is not None:
+            rep.fail(rid, construct, key,
+                     f'the fraction digits go through `{norm(digits_bad[0])[:60]}` before they are read as microseconds: '
+                     f'{digits_bad[1]}', n)
         else:
             rep.ok(rid, construct, key)
     if sites == 0:
@@ -249,9 +254,77 @@ def r19_2(rep: Report) -> None:
                             '(fractional seconds dropped, or unknown idiom)')
 
 
+_PLACE_VALUE_OPS = {
+    'strip': 'strip() also removes the leading zeros, which carry the place value (.045000 becomes 450000 us)',
+    'lstrip': 'lstrip() removes the leading zeros, which carry the place value (.045000 becomes 450000 us)',
+    'zfill': 'zfill() pads on the left: the digits move to lower places (.5 becomes 5 us)',
+    'rjust': 'rjust() pads on the left: the digits move to lower places (.5 becomes 5 us)',
+    'center': 'center() pads on both sides: the digits move to other places',
+    'replace': 'replace() removes or changes digits inside the fraction',
+}
+
+
+def _fraction_digits_moved(fn: ast.AST, val: ast.AST, tainted: set[str]):
+    """(node, why) when the decimal digits that are read with int(<text>) for the microsecond go through an
+    operation that changes the place of a digit.  The digits are followed backwards through every definition
+    of the locals involved (flow-insensitive: a reassignment `frac = frac[:6].strip('0')` is on the chain).
+    Accepted on the chain: `[:6]`, `ljust(6, '0')`, `rstrip('0')`, `+ '0' * k`, split / partition / group."""
+    starts = [c.args[0] for c in ast.walk(val) if isinstance(c, ast.Call) and call_name(c) == 'int' and c.args
+              and not _mentions_float(c.args[0], tainted) and not isinstance(c.args[0], ast.Constant)]
+    seen_names: set[str] = set()
+    work = list(starts)
+    for _ in range(6):
+        names = {x.id for e in work for x in ast.walk(e) if isinstance(x, ast.Name)} - seen_names
+        if not names:
+            break
+        seen_names |= names
+        for a_ in ast.walk(fn):
+            if isinstance(a_, ast.Assign):
+                for t_ in a_.targets:
+                    if any(isinstance(x, ast.Name) and x.id in names for x in ast.walk(t_)):
+                        work.append(a_.value)
+            elif isinstance(a_, ast.AnnAssign) and a_.value is not None and isinstance(a_.target, ast.Name) \
+                    and a_.target.id in names:
+                work.append(a_.value)
+    for e in work:
+        for x in ast.walk(e):
+            if isinstance(x, ast.Call) and isinstance(x.func, ast.Attribute) and x.func.attr in _PLACE_VALUE_OPS \
+                    and not x.keywords:
+                if x.func.attr == 'replace' and not (x.args and isinstance(x.args[0], ast.Constant)
+                                                     and isinstance(x.args[0].value, str)):
+                    continue                # datetime.replace(..) / non-text
+                return x, _PLACE_VALUE_OPS[x.func.attr]
+            if isinstance(x, ast.Subscript) and isinstance(x.slice, ast.Slice) and any(
+                    isinstance(y, ast.Call) and isinstance(y.func, ast.Attribute) and y.func.attr in ('ljust', 'split', 'partition')
+                    or isinstance(y, ast.Name) and 'frac' in y.id.lower() for y in ast.walk(x.value)):
+                lo, up = x.slice.lower, x.slice.upper
+                if lo is not None and not (isinstance(lo, ast.Constant) and lo.value == 0):
+                    return x, 'a slice that does not start at the first digit drops the highest places'
+                if x.slice.step is not None:
+                    return x, 'a stepped slice reorders or drops digits'
+                if isinstance(up, ast.Constant) and isinstance(up.value, int) and up.value != 6 \
+                        and 'frac' in norm(x.value).lower():
+                    return x, f'the fraction is cut to {up.value} digits, not to the 6 digits of a microsecond'
+    return None
+
+
 def _regex_of(tree: ast.Module, scope: ast.AST, node: ast.AST) -> str | None:
+    """the pattern text: a literal, or a name bound exactly once (in the function or at module level) to a
+    literal or to re.compile(<literal>)"""
     if isinstance(node, ast.Constant) and isinstance(node.value, str):
         return node.value
+    if isinstance(node, ast.Call) and call_name(node) == 're.compile' and node.args:
+        return _regex_of(tree, scope, node.args[0])
+    if isinstance(node, ast.Name):
+        for where in (scope, tree):
+            stmts = list(ast.walk(where)) if where is scope else list(tree.body)
+            defs = [x for x in stmts if isinstance(x, (ast.Assign, ast.AnnAssign)) and x.value is not None
+                    and any(isinstance(t, ast.Name) and t.id == node.id
+                            for t in (x.targets if isinstance(x, ast.Assign) else [x.target]))]
+            if len(defs) == 1 and not isinstance(defs[0].value, ast.Name):
+                return _regex_of(tree, scope, defs[0].value)
+            if defs:
+                return None
     return None
 
 
@@ -262,8 +335,25 @@ def r19_3(rep: Report) -> None:
     tree = rep.repo.tree(DT)
     fn = need(find_func(tree, 'to_iso_datetime'), f'{DT}::to_iso_datetime')
     construct = f'{DT}::to_iso_datetime'
-    subs = [n for n in ast.walk(fn) if isinstance(n, ast.Call)
-            and call_name(n) in ('re.sub', 'rv.replace')]
+    # every rewriting of the rendered text: re.sub(P, R, s), <compiled pattern>.sub(R, s), s.replace(a, b);
+    # any other rewriting call is an idiom this rule does not know (the run stops rather than pass)
+    subs = []
+    for n in ast.walk(fn):
+        if not (isinstance(n, ast.Call) and isinstance(n.func, ast.Attribute)):
+            continue
+        if call_name(n) == 're.sub' and len(n.args) >= 3:
+            subs.append(n)
+        elif n.func.attr == 'replace' and len(n.args) == 2 and all(isinstance(a, ast.Constant) and isinstance(a.value, str)
+                                                                  for a in n.args):
+            subs.append(n)
+        elif n.func.attr == 'sub' and len(n.args) == 2 and _regex_of(tree, fn, n.func.value) is not None:
+            # the same call written on the compiled pattern
+            subs.append(ast.copy_location(ast.Call(
+                func=ast.Attribute(value=ast.Name(id='re', ctx=ast.Load()), attr='sub', ctx=ast.Load()),
+                args=[ast.Constant(value=_regex_of(tree, fn, n.func.value))] + list(n.args), keywords=[]), n))
+        elif n.func.attr in ('sub', 'subn', 'translate') or (n.func.attr == 'replace' and n.args):
+            # (datetime.replace(tzinfo=..) takes keywords only and rewrites no text)
+            raise AnalysisError(f'to_iso_datetime: `{norm(n)[:60]}` rewrites the rendered text in a way this rule does not follow')
     uses_isoformat = any(isinstance(n, ast.Call) and isinstance(n.func, ast.Attribute)
                          and n.func.attr == 'isoformat' for n in ast.walk(fn))
     if not uses_isoformat:
@@ -274,6 +364,7 @@ def r19_3(rep: Report) -> None:
             pat = _regex_of(tree, fn, c.args[0])
             if pat is None:
                 raise AnalysisError('to_iso_datetime: non-literal regex')
+            ast.fix_missing_locations(c)
             try:
                 parsed = list(sre_parser.parse(pat))
             except Exception as err:
@@ -601,13 +692,81 @@ def r19_6(rep: Report) -> None:
     rep.extra['timedelta_seconds_reads'] = n      # none at all is fine: total_seconds() / a helper is used instead
 
 
+_NAIVE_CTORS = ('utcnow', 'utcfromtimestamp')
+
+
+def r19_7(rep: Report) -> None:
+    """R19.7  `x.replace(tzinfo=Z)` relabels a date-time, it does not convert it: 15:30+05:30 becomes 15:30Z, five
+    and a half hours later.  It is only sound on a value that has no zone yet.  Every such call in the package is
+    on a value that is naive by construction (strptime() with a format without %z, utcnow(), utcfromtimestamp(), a
+    datetime(..) built without tzinfo) or on a path that implies `<x>.tzinfo is None` / `<x>.utcoffset() is None`."""
+    from ..flow import Disjunctive, Flow
+    from ..pathcond import PathCond, entails as pc_entails, show as pc_show
+    from ..core import subst_locals
+    rid = 'R19.7'
+    rep.rule(rid, 'a time zone is attached with replace(tzinfo=..) only to a value that has none', floor=1)
+
+    def relabels(st: ast.AST) -> list[ast.Call]:
+        return [c for c in ast.walk(st) if isinstance(c, ast.Call) and isinstance(c.func, ast.Attribute)
+                and c.func.attr == 'replace' and any(k.arg == 'tzinfo' and not (isinstance(k.value, ast.Constant)
+                                                                                and k.value.value is None)
+                                                     for k in c.keywords)]
+
+    def naive_by_construction(e: ast.AST) -> bool:
+        if not isinstance(e, ast.Call):
+            return False
+        name = call_name(e) or ''
+        last = name.rsplit('.', 1)[-1]
+        if last == 'strptime' and len(e.args) >= 2:
+            fmt = const_str(e.args[-1])
+            return fmt is not None and '%z' not in fmt and '%Z' not in fmt
+        if last in _NAIVE_CTORS:
+            return True
+        if last == 'datetime' and len(e.args) < 8 and not any(k.arg == 'tzinfo' or k.arg is None for k in e.keywords):
+            return True
+        return False
+    for rel in rep.repo.py_files('dashlive'):
+        if 'tzinfo' not in rep.repo.source(rel):
+            continue
+        for cls_, fn in rep.repo.expanded_functions(rel):
+            if not relabels(fn):
+                continue
+            construct = f'{rel}::{(cls_.name + ".") if cls_ else ""}{fn.name}'
+            at: dict[int, list] = {}
+
+            def on_stmt(st, states, at=at):
+                if isinstance(st, (ast.If, ast.While, ast.For, ast.Try, ast.With)):
+                    return
+                if relabels(st):
+                    at.setdefault(id(st), [st, []])[1].extend(states)
+            Flow(Disjunctive(PathCond(), cap=256), on_stmt=on_stmt).run(fn, [PathCond.initial()])
+            for st, states in at.values():
+                for c in relabels(st):
+                    recv = c.func.value
+                    key = f'{norm(recv)[:50]}.replace(tzinfo=..)'
+                    shown = subst_locals(fn, recv, allow_calls=True)
+                    if naive_by_construction(recv) or naive_by_construction(shown):
+                        rep.ok(rid, construct, key, 'the value is naive by construction')
+                        continue
+                    atoms = [('atom', f'{norm(recv)}.tzinfo is None'), ('atom', f'{norm(recv)}.utcoffset() is None')]
+                    bad = [x for x in states if not any(pc_entails(x[0], a) is True for a in atoms)]
+                    if states and not bad:
+                        rep.ok(rid, construct, key, f'only where {norm(recv)}.tzinfo is None')
+                    else:
+                        rep.fail(rid, construct, key,
+                                 f'`{norm(c)[:80]}` attaches a zone to `{norm(recv)}` on a path that does not imply '
+                                 f'`{norm(recv)}.tzinfo is None`' + (f' (path: {pc_show(bad[0][0])[:100]})' if bad else '') +
+                                 ': replace() keeps the wall-clock fields, so a value that already carries another UTC offset '
+                                 'is moved by that offset (15:30+05:30 becomes 15:30Z)', c)
+
+
 def lift_into(rep: Report, rid: str, rules: tuple[str, ...], what: str) -> None:
     """other properties rest on the same formatter / parser clauses (C05: every xs:dateTime and xs:duration
     attribute is lexically valid; C08: an explicit start names the instant it was given as): run this
     property's rules on the same tree and report their unlisted findings under the other property's rule id"""
     from ..core import load_known, match_known
     sub = Report('C19', rep.repo, 'quick')
-    fns = {'R19.1': r19_1, 'R19.2': r19_2, 'R19.3': r19_3, 'R19.4': r19_4, 'R19.5': r19_5, 'R19.6': r19_6}
+    fns = {'R19.1': r19_1, 'R19.2': r19_2, 'R19.3': r19_3, 'R19.4': r19_4, 'R19.5': r19_5, 'R19.6': r19_6, 'R19.7': r19_7}
     for r_ in rules:
         fns[r_](sub)                 # each rule function registers its own rule; only the lifted ones run
     known, _ = load_known('C19')
@@ -632,4 +791,5 @@ def analyse(rep: Report) -> None:
     r19_3(rep)
     r19_4(rep)
     r19_5(rep)
+    r19_7(rep)
     r19_6(rep)
